@@ -76,7 +76,14 @@ fn child_raw(args: &Args) {
         for _ in 0..nemit {
             sites.push((0..rounds).filter_map(|_| fresh.take(1 + rng.usize(5), rng.usize(4), vcs::Kind::Event)).collect());
         }
-        let counters: Vec<std::sync::Arc<Counting>> = (0..nemit).map(|i| std::sync::Arc::new(Counting { hint: hints[(i + sidx as usize) % 4], events: AtomicU64::new(0), registered: AtomicU64::new(0) })).collect();
+        let pre: Vec<&'static vcs::Cs> = (0..2).filter_map(|_| fresh.take(1 + rng.usize(5), rng.usize(4), vcs::Kind::Event)).collect();
+        for c in &pre {
+            let _ = (c.emit)(0);
+        }
+        if pre.is_empty() {
+            break;
+        }
+                let counters: Vec<std::sync::Arc<Counting>> = (0..nemit).map(|i| std::sync::Arc::new(Counting { hint: hints[(i + sidx as usize) % 4], events: AtomicU64::new(0), registered: AtomicU64::new(0) })).collect();
         let emitted = AtomicU64::new(0);
         std::thread::scope(|sc| {
             for (i, my) in sites.iter().enumerate() {
@@ -94,10 +101,11 @@ fn child_raw(args: &Args) {
             }
             // plus one emitter WITHOUT a scope of its own: it takes the global-default path while
             // (in the first scenario of the process) the global default is being installed
-            let free = sites[0].clone();
+            // (its callsites were hit before the race, so its loop takes no registry lock)
+            let free = pre.clone();
             sc.spawn(move || {
-                for (k, cs) in free.iter().enumerate() {
-                    let _ = (cs.emit)(100 + k as u64);
+                for k in 0..3 * rounds {
+                    let _ = (free[k % free.len()].emit)(100 + k as u64);
                     std::thread::yield_now();
                 }
             });
